@@ -54,6 +54,11 @@ impl Fails {
 /// all differences of two dumps as one failure with its symptom kinds
 fn dump_failure(prefix: &str, before: &BTreeMap<String, Vec<String>>, after: &BTreeMap<String, Vec<String>>, fails: &mut Fails) {
     let diffs = diff_dump_all(before, after);
+    if std::env::var("VH_DEBUG").is_ok() {
+        for (s, a, b) in &diffs {
+            eprintln!("DIFF [{}] {}\n   - {:?}\n   + {:?}", symptom_of(s, a, b), s, a, b);
+        }
+    }
     if let Some((sec, a, b)) = diffs.first() {
         let symptoms: Vec<String> = diffs.iter().map(|(s, a, b)| symptom_of(s, a, b)).collect();
         let mut kinds = symptoms.clone();
@@ -68,9 +73,11 @@ fn finding_for(c: &WsCase, symptom: &str) -> Option<&'static str> {
     // LuaPropertyIndex: whole property of a shared TypeDecl owner dropped / last writer wins
     const PROPERTY: &[&str] = &["hover-doc", "deprecated-diag", "count:property"];
     // globals declared in several files: declaration / overload order and table-vs-member typing follow analysis order
-    const GLOBAL: &[&str] = &["global-type", "global-decl", "globals"];
+    // (incl. one more/less `owner_members` entry: the member table of `G = G or {}` is owned by the table element or
+    // by the global path depending on which file was analysed last; bounded, does not grow with repetitions)
+    const GLOBAL: &[&str] = &["global-type", "global-decl", "globals", "global-member-type", "global-type-in-diag", "count:member"];
     // merge_def_type_with_table re-owns another file's members to the class; never undone
-    const BOUND: &[&str] = &["undefined-field-diag", "count:member"];
+    const BOUND: &[&str] = &["undefined-field-diag", "count:member", "type-members", "required-field-type"];
     if class_bound_to_required_table(c) && BOUND.contains(&symptom) {
         return Some("class-bound-to-required-table/member-reowning");
     }
@@ -321,7 +328,7 @@ fn oracle_c08(c: &WsCase, report: &mut Report) -> Fails {
             report.count("c08_sizes_differ");
         }
         dump_failure(&format!("step {j}: after {what} an observable result changed"), &base_dump, &dump(&sim.a, &qs), &mut fails);
-        if !fails.is_empty() {
+        if !fails.is_empty() && std::env::var("VH_NOBREAK").is_err() {
             break;
         }
     }
@@ -393,6 +400,14 @@ fn corpus(prop: &str) -> Vec<WsCase> {
         f("p/f1.lua", &["local M = {}\nM.value = 1\nreturn M\n", "local M = {}\nM.value = 8\nreturn M\n"]),
         f("main.lua", &["local c = require(\"p.f1\")\nlocal d = require(\"p\")\nprint(c.value, d.value)\n", "print(1)\n"]),
     ];
+    // regression (seeded `LuaTypeIndex::remove` change): a class split over two files, the super type on one side
+    let sup = vec![
+        f("f0.lua", &["---@class (partial) Foo\n---@field a integer\n", "---@class (partial) Foo\n---@field a2 integer\n"]),
+        f("f1.lua", &["---@class (partial) Foo: Base\n---@field b integer\n\n---@class Base\n---@field z integer\n\n---@class Other\n---@field o integer\n",
+                       "---@class (partial) Foo: Other\n---@field b integer\n\n---@class Base\n---@field z integer\n\n---@class Other\n---@field o integer\n"]),
+        f("f2.lua", &["---@type Foo\nlocal x\nprint(x.a, x.b, x.z)\n", "print(1)\n"]),
+    ];
+    let sc = |ops: Vec<AOp>| WsCase { files: sup.clone(), initial: vec![0, 1, 2], ops, probe: Some("---@class (partial) Foo: Base\n---@field p integer\n".into()), strict: false };
     let pc = |ops: Vec<AOp>, strict: bool| WsCase { files: parent.clone(), initial: vec![0, 1, 2], ops, probe: None, strict };
     let mut extra = match prop {
         "C10" => vec![pc(vec![AOp::Update(0, 1), AOp::Remove(0)], true), pc(vec![AOp::Remove(0), AOp::Remove(2)], false)],
@@ -414,6 +429,11 @@ fn corpus(prop: &str) -> Vec<WsCase> {
         ],
     };
     base.append(&mut extra);
+    base.extend(match prop {
+        "C10" => vec![sc(vec![AOp::Remove(1)]), sc(vec![AOp::Update(1, 1), AOp::Remove(0)]), sc(vec![AOp::Close(0), AOp::Remove(2)])],
+        "C08" => vec![sc(vec![AOp::Resubmit(1), AOp::Resubmit(1), AOp::Update(1, 1), AOp::Update(1, 0), AOp::Resubmit(0)]), sc(vec![AOp::Reindex, AOp::Update(1, 1), AOp::Update(1, 0), AOp::Resubmit(1)])],
+        _ => vec![sc(vec![AOp::Resubmit(1), AOp::Update(1, 1), AOp::Update(1, 0), AOp::Reindex]), sc(vec![AOp::Update(1, 1), AOp::Remove(0), AOp::Reindex])],
+    });
     base
 }
 
